@@ -115,6 +115,22 @@ HasBotTop(u) ==
     [] u.k = "fun" -> (\E i \in 1..Len(u.ps) : HasBotTop(u.ps[i])) \/ HasBotTop(u.ret)
     [] OTHER -> FALSE
 
+\* a substitution is cyclic when some variable reaches itself through its bindings
+\* (ApplySubst would not terminate on it); x := x alone is not a cycle (applySubst stops there)
+RECURSIVE VarsIn(_)
+VarsIn(t) ==
+  CASE t.k = "var" -> {t.n}
+    [] t.k \in {"list", "maybe"} -> VarsIn(t.el)
+    [] t.k = "map" -> VarsIn(t.key) \cup VarsIn(t.val)
+    [] t.k = "tuple" -> UNION {VarsIn(t.ts[i]) : i \in 1..Len(t.ts)}
+    [] t.k = "obj" -> UNION {VarsIn(t.fs[i].t) : i \in 1..Len(t.fs)}
+    [] t.k = "fun" -> VarsIn(t.ret) \cup UNION {VarsIn(t.ps[i]) : i \in 1..Len(t.ps)}
+    [] OTHER -> {}
+DepsOf(m, n) == IF m[n].k = "var" /\ m[n].n = n THEN {} ELSE VarsIn(m[n]) \cap DOMAIN m
+RECURSIVE ReachVars(_, _, _)
+ReachVars(m, S, k) == IF k = 0 THEN S ELSE ReachVars(m, S \cup UNION {DepsOf(m, n) : n \in S}, k - 1)
+CyclicSubst(m) == \E n \in DOMAIN m : n \in ReachVars(m, DepsOf(m, n), Cardinality(DOMAIN m))
+
 Bind(m, n, t) == [x \in DOMAIN m \cup {n} |-> IF x = n THEN t ELSE m[x]]
 EmptyM == [x \in {} |-> TNum]
 UOk(t, m) == [ok |-> TRUE, t |-> t, m |-> m]
